@@ -347,7 +347,9 @@ fn state_change(ws: &Value, prev: Option<&Value>, always_structure: bool) -> Cha
         let pf = p["files"].as_array().unwrap();
         let a: Vec<_> = pf.iter().map(key).collect();
         let b: Vec<_> = files.iter().map(key).collect();
-        membership_changed = a != b || p["roots"] != ws["roots"];
+        // the layout (which file lives under which root) is re-sent only when it changed; a changed dependency edge alone is a graph-only Change
+        let layout = |w: &Value| -> Vec<(String, u64)> { w["roots"].as_array().unwrap().iter().map(|r| (r["path"].as_str().unwrap().to_string(), r["toml"].as_u64().unwrap())).collect() };
+        membership_changed = a != b || layout(p) != layout(ws);
         graph_changed = p["roots"] != ws["roots"];
         for f in pf {
             if !files.iter().any(|g| g["id"] == f["id"]) {
